@@ -269,8 +269,11 @@ pub fn run(tier: &str, seed: u64, em: &mut Emitter) {
         }
         // A later step may have replaced an earlier signature of the same entity+version with a
         // different key: the map above then holds the later key, which is the matching one.
-        let (case, out) = verify_case(&signed, &pk, &table, true);
-        em.emit("verify-honest", case, out);
+        // a base object that already carries `signatures` (the key pool contains that name) names
+        // entities nobody signed for: no expectation then, the spec predicate judges the verdict
+        let honest = !base.contains_key("signatures");
+        let (case, out) = verify_case(&signed, &pk, &table, honest);
+        em.emit(if honest { "verify-honest" } else { "verify-foreign-signatures" }, case, out);
 
         // tamperings: each is one edit of the signed object or of the key map
         for _ in 0..6 {
@@ -415,7 +418,7 @@ pub fn run(tier: &str, seed: u64, em: &mut Emitter) {
             }
             // after a tampering we do not know the expected verdict a priori, except that edits
             // confined to `unsigned` or extra keys must keep it Ok
-            let expect = tag == "tamper-unsigned" || tag == "keys-extra";
+            let expect = honest && (tag == "tamper-unsigned" || tag == "keys-extra");
             let (case, out) = verify_case(&o, &pk2, &table, expect);
             em.emit(tag, case, out);
         }
